@@ -222,8 +222,91 @@ func c10Worker(sh *explore.Shard) {
 				sh.C.Outcome(fmt.Sprintf("exit%d-clean-error", res.Exit))
 			}
 		}
+		c10Extras(sh, &idx, dir, si, sc, fs, r0, log, outputs)
 	}
 	c10RealGit(sh, &idx, dir)
+}
+
+// c10Extras: (a) every single-split chunking of every output stream with no
+// fault: the report must equal the fault-free one; (b, thorough) every pair of
+// simultaneous faults inside the first pipeline at record granularity.
+func c10Extras(sh *explore.Shard, idx *int64, dir string, si int, sc c10Scenario, fs *cli.FakeSession, r0 cli.Result, log []modelgit.Invocation, outputs map[string][]byte) {
+	horizon := 60 * time.Second
+	boundaries := func(inv modelgit.Invocation) []int {
+		data := outputs[fmt.Sprintf("%s#%d", inv.Kind, inv.Nth)]
+		var ks []int
+		for i, c := range data {
+			if c == '\n' || c == 0 {
+				ks = append(ks, i+1)
+			}
+		}
+		return ks
+	}
+	if len(sc.repo.Refs) > 100 {
+		return
+	}
+	for _, inv := range log {
+		if inv.Nth != 0 || inv.OutLen < 2 {
+			continue
+		}
+		for _, b := range boundaries(inv) {
+			for _, d := range []int{-1, 0, 1} {
+				k := b + d
+				if k <= 0 || k >= inv.OutLen {
+					continue
+				}
+				*idx++
+				if !sh.Mine(*idx) || sh.Expired() {
+					continue
+				}
+				fs.SetPlan(&modelgit.Plan{GitDir: "/model/.git", SplitAt: map[string]int{inv.Kind: k}, FlushEvery: 1})
+				res := cli.Run(dir, cli.FakeGitDir, fs.Env(), horizon, sc.args...)
+				sh.C.Evals++
+				sh.C.Nontrivial++
+				sh.C.Add("chunking_runs", 1)
+				if res.Exit != 0 || !bytes.Equal(res.Stdout, r0.Stdout) {
+					sh.C.Violate(explore.Violation{Property: "C10", Class: "chunking", Msg: fmt.Sprintf("%s output delivered in two writes split at byte %d (no fault): exit %d, report differs=%v [%s]", inv.Kind, k, res.Exit, !bytes.Equal(res.Stdout, r0.Stdout), sc.name),
+						Case: caseJSON(sh.Index(), map[string]any{"scenario": sc.name, "kind": inv.Kind, "split": k})})
+				}
+			}
+		}
+	}
+	if sh.Tier != "thorough" || si > 1 {
+		return
+	}
+	// pairs of faults among the invocations of the scanning pipelines
+	var pipeInv []modelgit.Invocation
+	for _, inv := range log {
+		if inv.Kind == modelgit.KRevList || inv.Kind == modelgit.KBatchCheck || inv.Kind == modelgit.KBatch {
+			pipeInv = append(pipeInv, inv)
+		}
+	}
+	for a := 0; a < len(pipeInv); a++ {
+		for b := a + 1; b < len(pipeInv); b++ {
+			for _, ka := range append([]int{0}, boundaries(pipeInv[a])...) {
+				for _, kb := range append([]int{0}, boundaries(pipeInv[b])...) {
+					if ka >= pipeInv[a].OutLen || kb >= pipeInv[b].OutLen {
+						continue
+					}
+					*idx++
+					if !sh.Mine(*idx) || sh.Expired() {
+						continue
+					}
+					fa := modelgit.Fault{Kind: pipeInv[a].Kind, Nth: pipeInv[a].Nth, StdoutBytes: ka, StdinLines: -1, Exit: 128}
+					fb := modelgit.Fault{Kind: pipeInv[b].Kind, Nth: pipeInv[b].Nth, StdoutBytes: kb, StdinLines: -1, Exit: 1}
+					fs.SetPlan(&modelgit.Plan{GitDir: "/model/.git", Faults: []modelgit.Fault{fa, fb}})
+					res := cli.Run(dir, cli.FakeGitDir, fs.Env(), horizon, sc.args...)
+					sh.C.Evals++
+					sh.C.Nontrivial++
+					sh.C.Add("fault_pair_runs", 1)
+					if res.TimedOut || res.Exit == 0 || len(res.Stdout) != 0 || !bytes.Contains(res.Stderr, []byte("error:")) {
+						sh.C.Violate(explore.Violation{Property: "C10", Class: "fault-pair", Msg: fmt.Sprintf("two faults (%s after %d bytes, %s after %d bytes): hang=%v exit=%d stdout=%d bytes stderr=%q [%s]", fa.Kind, ka, fb.Kind, kb, res.TimedOut, res.Exit, len(res.Stdout), tailBytes(res.Stderr, 200), sc.name),
+							Case: caseJSON(sh.Index(), map[string]any{"scenario": sc.name, "faults": []modelgit.Fault{fa, fb}})})
+					}
+				}
+			}
+		}
+	}
 }
 
 // c10RealGit: removed objects and invalid inputs with the real git.
@@ -310,6 +393,6 @@ func c10RealGit(sh *explore.Shard, idx *int64, dir string) {
 
 func init() {
 	Registry["C10"] = &Check{Level: "fault_enumeration", Worker: c10Worker, QuickBudget: 100 * time.Second, ThoroughBudget: 20 * time.Minute,
-		Rule: "the real binary with the fault-injecting model git first on PATH, 6 scenarios (root kinds x table/JSON v1 with ROOT/JSON v2 with refgroup; merge history verbose and with progress; 3000 references): the fault-free run is recorded, then EVERY single fault of the model is injected in turn: for every git invocation of the run (identified as kind, n-th) exit status 1/128/SIGKILL after its complete output, death after k bytes of stdout for every record boundary and +-1 byte, first, middle and last byte (quick) or every k (thorough), and death after reading j stdin lines for every j. Oracle: exit 0 implies stdout byte-identical to the fault-free report; a fired fault implies non-zero exit, empty stdout, an 'error:' line and termination within 60 s; `config --get` exiting 1 is git's 'unset' answer and must not be an error. With real git: every reachable object removed in turn, 14 invalid option/ROOT vectors, 6 invalid configurations, shallow and absent repository must give a clean error. non-trivial = every injected fault",
-		Assumptions: []string{"single faults (pairs of simultaneous faults are not enumerated)", "the model git's death is an exit status or a signal after a prefix of its correct output"}}
+		Rule: "the real binary with the fault-injecting model git first on PATH, 6 scenarios (root kinds x table/JSON v1 with ROOT/JSON v2 with refgroup; merge history verbose and with progress; 3000 references): the fault-free run is recorded, then EVERY single fault of the model is injected in turn: for every git invocation of the run (identified as kind, n-th) exit status 1/128/SIGKILL after its complete output, death after k bytes of stdout for every record boundary and +-1 byte, first, middle and last byte (quick) or every k (thorough), and death after reading j stdin lines for every j. Oracle: exit 0 implies stdout byte-identical to the fault-free report; a fired fault implies non-zero exit, empty stdout, an 'error:' line and termination within 60 s; `config --get` exiting 1 is git's 'unset' answer and must not be an error. Every single-split chunking (record boundaries +-1 byte) of every output stream with per-record flushing and no fault must give the fault-free report; thorough adds every pair of simultaneous faults among the scanning pipelines' invocations at record granularity (first two scenarios). With real git: every reachable object removed in turn, 14 invalid option/ROOT vectors, 6 invalid configurations, shallow and absent repository must give a clean error. non-trivial = every injected fault",
+		Assumptions: []string{"single faults in quick; pairs only among rev-list / cat-file invocations at record granularity in thorough", "the model git's death is an exit status or a signal after a prefix of its correct output"}}
 }
